@@ -169,6 +169,15 @@ def check_object(g, comp, shapes_in, expect_wrappers, st, case, base, tag, which
     return ssig
 
 
+def CLASSIC(f):
+    import functools
+
+    @functools.wraps(f)
+    def classic_wrapper(*args, **kwargs):
+        return f(*args, **kwargs)
+    return classic_wrapper
+
+
 def build(api, D, f):
     if api == 'decorator':
         return W.decorator(D)(f)
@@ -188,6 +197,10 @@ def compose(Ds, f):
 def eval_stack(ns, api, kinds, fshape, placement, st):
     # a kind written 'none@1' names decorator function 1 whatever its position: the same wrapping function may
     # occur several times in one stack
+    kinds_all = kinds
+    # 'classic' at position i sits on top of the next sigtools layer below it
+    classic_at = [i - sum(1 for k in kinds[:i] if k == 'classic') for i, k in enumerate(kinds) if k == 'classic']
+    kinds = tuple(k for k in kinds if k != 'classic')
     idxs = [int(k.partition('@')[2] or i + 1) for i, k in enumerate(kinds)]
     kinds_ = [k.partition('@')[0] for k in kinds]
     Ds = [ns['D%d_%s' % (i, k)] for i, k in zip(idxs, kinds_)]
@@ -199,7 +212,7 @@ def eval_stack(ns, api, kinds, fshape, placement, st):
         # the decorated function carries an explicit __signature__ of its own (as modifiers.annotate leaves one)
         from sigtools import signatures as S_
         f.__signature__ = S_.signature(f)
-    case = {'api': api, 'kinds': list(kinds), 'f': space.to_json(fshape), 'placement': placement + ('_sig' if sigattr else '')}
+    case = {'api': api, 'kinds': list(kinds_all), 'f': space.to_json(fshape), 'placement': placement + ('_sig' if sigattr else '')}
     base = {'api': api, 'decorators': [D.__name__ + str(inspect.signature(D)) for D in Ds],
             'decorated': 'def f' + str(inspect.signature(f)) + (' with f.__signature__ set' if sigattr else ''), 'placement': placement}
     st.inc('states')
@@ -207,6 +220,10 @@ def eval_stack(ns, api, kinds, fshape, placement, st):
         g = f
         for j, D in reversed(list(enumerate(Ds))):
             g = build(('decorator', 'wrapper_decorator')[j % 2] if api == 'mixed' else api, D, g)
+            if j in classic_at:
+                # a decorator written the classic way (functools.wraps + pass-through) on top of this layer: it changes
+                # neither the calls nor the list of sigtools wrapping functions
+                g = CLASSIC(g)
     except Exception as e:  # noqa
         st.violation('decoration-raises', case, dict(base, error='%s: %s' % (type(e).__name__, e)), {})
         return
@@ -384,6 +401,11 @@ def work_items(tier):
                 if len(set(seq)) < r:
                     for placement in ('function', 'method', 'staticmethod'):
                         items.append(('stackreps3', api, tuple('none@%d' % i for i in seq), placement, 0, 0))
+    # a classic functools.wraps decorator between two sigtools wrappers
+    for api in ('decorator', 'wrapper_decorator'):
+        for placement in ('function', 'method'):
+            items.append(('stackreps3', api, ('none@1', 'classic', 'none@2'), placement, 0, 0))
+            items.append(('stackreps3', api, ('pok@1', 'classic', 'kwoopt@2'), placement, 0, 0))
     items.append(('forwarding', None, None, None, 0, 0))
     items.append(('fwd_decorated', None, None, None, 0, 0))
     items.append(('exceptions', None, None, None, 0, 0))
